@@ -2635,8 +2635,6 @@ ORACLES['C08'] = C08Oracle
 
 
 CANARIES_BY_PROP['C07'] = {
-    'dict_shallow_clone_shares_containers': _canary(
-        _D, 'Dict', '_sym_clone', 'if deep or isinstance(v, base.Symbolic):', 'if deep:'),
     'object_clone_drops_allow_partial': _canary(
         _O, 'Object', '_sym_clone', 'allow_partial=self._allow_partial', 'allow_partial=False'),
     'list_clone_drops_sealed': _canary(
@@ -2648,8 +2646,6 @@ CANARIES_BY_PROP['C07'] = {
                                      'value = value.clone()', 'pass'),
     'dict_clone_drops_value_spec': _canary(
         _D, 'Dict', '_sym_clone', 'value_spec=self._value_spec,', 'value_spec=None,'),
-    'list_copy_shares_children': _canary(
-        _L, 'List', '_sym_clone', 'if deep or isinstance(v, base.Symbolic):', 'if deep:'),
 }
 CANARIES_BY_PROP['C08'] = {
     'treats_as_sealed_ignores_scope': _canary(
